@@ -685,17 +685,29 @@ def r7_handlers(chk: Check) -> None:
     ih = P.func("cli/commands/run/executor.py:initialize_handlers")
     ju_c = [c for c in body_calls(ih) if last_attr(c) == "JunitXMLHandler" and c.args]
     chk.decide(bool(ju_c) and any("get_path(ReportFormat.JUNIT)" in x for x in canon(ih, ju_c[0].args[0])) if ju_c else False, "C16.R7", ih, "JUnit handler created when its format is requested", "JUnit report is never produced", ih.loc())
-    kw = [c for c in body_calls(ih) if last_attr(c) == "CassetteWriter"]
-    chk.decide(bool(kw), "C16.R7", ih, "VCR/HAR handler created when its format is requested", "VCR/HAR report is never produced", ih.loc())
-    if kw:
-        lp_ = next((a for a in ancestors(kw[0]) if isinstance(a, ast.For) and isinstance(a.target, ast.Name)), None)
-        fmt = lp_.target.id if lp_ is not None else None  # type: ignore[union-attr]
-        val = kwarg(kw[0], "format")
-        chk.decide(fmt is not None and is_var(val, fmt), "C16.R7", ih, "CassetteWriter(format=format)", f"`format` receives {unparse(val)}", ih.loc(kw[0]))
-        val = kwarg(kw[0], "path")
-        chk.decide(val is not None and fmt is not None and any(x.endswith(f"get_path({fmt})") for x in canon(ih, val)), "C16.R7", ih, "CassetteWriter(path=path)", f"`path` receives {unparse(val)}", ih.loc(kw[0]))
-        val = kwarg(kw[0], "preserve_bytes")
-        chk.decide(val is not None and ceq(ih, val, 'config.report.preserve_bytes'), "C16.R7", ih, "CassetteWriter(preserve_bytes=config.report.preserve_bytes)", f"`preserve_bytes` receives {unparse(val)}", ih.loc(kw[0]))
+    # the constructor call may sit in initialize_handlers itself or in a module-level helper it calls
+    helpers = [ih] + [f for f in ih.module.functions.values() if not isinstance(f.node, ast.Lambda) and f.parent is None and f is not ih and any(last_attr(c) == f.name for c in body_calls(ih))]
+    kw = [(f, c) for f in helpers for c in body_calls(f) if last_attr(c) == "CassetteWriter"]
+    chk.decide(True if kw else False, "C16.R7", ih, "VCR/HAR handler created when its format is requested", "no CassetteWriter is constructed by initialize_handlers or a helper it calls: the VCR/HAR report is never produced", ih.loc())
+    for f, c in kw:
+        where = f.qualname.partition(":")[2]
+        val = kwarg(c, "format")
+        loopv = {a.target.id for a in ancestors(c) if isinstance(a, ast.For) and isinstance(a.target, ast.Name)}
+        okf = val is not None and isinstance(val, ast.Name) and (val.id in loopv or val.id in params_of(f.node))
+        chk.decide(True if okf else (False if val is None else None), "C16.R7", f, f"{where}: CassetteWriter(format=<the requested format>)", f"`format` receives {unparse(val)}", f.loc(c))
+        val = kwarg(c, "path")
+        chk.decide(True if (val is not None and any("get_path(" in x for x in canon(f, val))) else (False if val is None else None), "C16.R7", f, f"{where}: CassetteWriter(path=<report path of the format>)", f"`path` receives {unparse(val)}", f.loc(c))
+        for opt in ("sanitize_output", "preserve_bytes"):
+            val = kwarg(c, opt)
+            construct = f"{where}: CassetteWriter({opt}=<report config>.{opt})"
+            if val is None:
+                chk.violation("C16.R7", f, construct,
+                              f"`{opt}` is not passed: the writer runs with its default - " + ("`--report-preserve-bytes` is silently ignored, bodies go through `decode(..., 'replace')` and every byte sequence that is not valid UTF-8 is recorded as U+FFFD instead of its base64 form" if opt == "preserve_bytes" else "`--output-sanitize=false` is ignored for cassettes"),
+                              f.loc(c))
+            elif any(x.endswith(f".{opt}") for x in canon(f, val)):
+                chk.ok("C16.R7", f, construct, unparse(val), f.loc(c))
+            else:
+                chk.undecided("C16.R7", f, construct, f"receives `{unparse(val, 60)}`", f.loc(c))
     post = P.func(f"{CAS}:CassetteWriter.__post_init__")
     th_ = [c for c in body_calls(post) if last_attr(c) == "Thread"]
     wv = kwarg(th_[0], "target") if th_ else None
